@@ -2,7 +2,7 @@
 From FV Require Import Base.Bytes Frame.Transfer Lib.LengthDelimited Proofs.FrameProofs Proofs.LdProofs
   Tie.Tie_FrameConsts Gen.FrameConsts.
 From Coq Require Import List.
-From FV Require Import Codec.Value Codec.Composite Codec.CompositeSpec Frame.AmqpFrame Proofs.AmqpFrameProofs.
+From FV Require Import Codec.Value Codec.Composite Codec.CompositeSpec Frame.AmqpFrame Proofs.AmqpFrameProofs Frame.TransferWire Proofs.TransferWireProofs.
 Import ListNotations.
 Open Scope N_scope.
 
@@ -108,3 +108,28 @@ Example C06_frame_example :
   enc_frame begin_frame = Some [2; 0; 0; 3; 0; 83; 17; 192; 14; 4; 64; 82; 1; 112; 0; 0; 8; 0; 112; 0; 0; 8; 0] /\
   dec_frame 5 [2; 0; 0; 3; 0; 83; 17; 192; 14; 4; 64; 82; 1; 112; 0; 0; 8; 0; 112; 0; 0; 8; 0] = Ok begin_frame.
 Proof. exact begin_frame_example. Qed.
+
+(** ** on the wire: the sending transport composed with the receiving frame decoder
+
+    [transfer_perfs] builds the four transfer performatives [encode_transfer] writes (as given / more
+    := true / per-delivery fields cleared / cleared with the caller's more) with the model of the
+    typed layer; [transfer_layout] is what C06_transfer_frames establishes for the chunks the encoder
+    puts on the wire.  For every channel, every admissible transfer field vector, every payload and
+    every frame limit: each chunk is read by the model of the receiving FrameDecoder as a transfer
+    performative with exactly the expected fields - the first frame carries the delivery-id, tag,
+    format and settled flag, the later ones do not, all but the last say more = true - and the payload
+    parts read, in order, concatenate to the payload. *)
+Theorem C06_transfer_wire_decodes :
+  forall m ch vs p payload chunks fuel,
+    ch < 65536 -> fields_ok (s_fields transfer_schema) vs = true ->
+    Forall (fun v => (depth v <= fuel)%nat) vs -> (1 <= fuel)%nat ->
+    transfer_perfs vs = Some p ->
+    transfer_layout m ch p payload chunks ->
+    (lenN (p_single p) + lenN payload <= m - 4 ->
+       map (dec_frame fuel) chunks = [Ok {| f_channel := ch; f_body := FPerf transfer_schema vs payload |}]) /\
+    (m - 4 < lenN (p_single p) + lenN payload ->
+       exists first mids last,
+         first ++ concat mids ++ last = payload /\
+         map (dec_frame fuel) chunks = map (@Ok frame) (expected_frames ch vs first mids last)).
+Proof. exact transfer_wire_decodes. Qed.
+Print Assumptions C06_transfer_wire_decodes.
